@@ -403,10 +403,10 @@ pub fn run(g: &mut Global) {
         &check,
     );
     let th = g.tier == Tier::Thorough;
-    g.random("random", g.tier.pick(100000, 10000000), &move || strategy(th), &check);
+    g.random("random", g.tier.pick(400000, 10000000), &move || strategy(th), &check);
     // identity events (tele.rs): at one or two steps the instance is replaced by its clone, by a used instance
     // (same or longer periods) that clone_from()s it, or by its serde round trip; nothing may change
-    g.random("events", g.tier.pick(30000, 1000000), &move || crate::tele::wrap(strategy(th)), &|t: &crate::tele::TCase<Case>, ctx: &mut Ctx| crate::tele::check_wrapped(t, ctx, t.case.prefix.len() + t.case.zv.len() + t.case.flat_len, t.case.cfg.n(), check));
+    g.random("events", g.tier.pick(120000, 1000000), &move || crate::tele::wrap(strategy(th)), &|t: &crate::tele::TCase<Case>, ctx: &mut Ctx| crate::tele::check_wrapped(t, ctx, t.case.prefix.len() + t.case.zv.len() + t.case.flat_len, t.case.cfg.n(), check));
     if g.tier == Tier::Thorough {
         g.fuzz_stage("ops_pred", Some(1), 600_000, "random", &|b| crate::fuzzdec::decode_c08(b), &check);
     }
